@@ -194,3 +194,12 @@ def sany(spec: Path) -> None:
     if p.returncode != 0 or "Semantic errors" in p.stdout or "Parse Error" in p.stdout \
             or "Fatal errors" in p.stdout:
         raise MachineryError(f"SANY rejects {spec.name}:\n{p.stdout[-2000:]}")
+
+
+def run_tlc_many(jobs, max_parallel: int = 4):
+    """Run independent TLC jobs concurrently (JVM start-up dominates the small ones).
+    jobs: list of (spec, cfg, kwargs) -> list of TLCResult in the same order; the first exception is re-raised."""
+    from concurrent.futures import ThreadPoolExecutor
+    with ThreadPoolExecutor(max_parallel) as ex:
+        futs = [ex.submit(run_tlc, spec, cfg, **kw) for spec, cfg, kw in jobs]
+        return [f.result() for f in futs]
